@@ -254,6 +254,21 @@ SkewExercised(sc, top, ias, fr, W) ==
        /\ \E p \in NbPairs(top, ias, it, sc.intra) :
              DistBin(it, DD(W, p[1], p[2])) # Discard /\ CircDist(cell(p[1]), cell(p[2]), N) >= 2
 
+\* Bead lists written in descending order.  The exclusion rule is order-free, so a pair must stay excluded
+\* when every bonded line that contains it lists the higher-numbered bead first.  Guard: some non-bonded
+\* interaction has such a pair among its (type-matching, excluded) candidates at a distance it would count.
+PosIn(sq, b) == CHOOSE p \in 1..Len(sq) : sq[p] = b
+OnlyDescending(ias, i, j) ==        \* i < j share an interaction, and in each one j is listed before i
+  /\ Excluded(ias, i, j)
+  /\ \A ia \in ias : (i \in SeqSet(ia.ids) /\ j \in SeqSet(ia.ids)) => PosIn(ia.ids, j) < PosIn(ia.ids, i)
+DescExercised(sc, top, ias, W) ==
+  \E x \in 1..Len(sc.inter) :
+    LET it == sc.inter[x] IN
+    /\ it.kind = "nb"
+    /\ \E p \in NbPairs(top, ias, it, TRUE) :
+          LET i == Min2(p[1], p[2]) j == Max2(p[1], p[2])
+          IN OnlyDescending(ias, i, j) /\ DistBin(it, DD(W, i, j)) # Discard
+
 \* a dihedral distribution sees a negative and a positive value that are counted (not discarded)
 DihExercised(sc, ias, W) ==
   \E x \in 1..Len(sc.inter) :
@@ -307,6 +322,7 @@ FrameData(sc, top, ias, f) ==
       ok |-> AnglesOK(sc, top, ias, W) /\ Distinct(top, W),
       win |-> WindowExercised(sc, top, ias, W),
       dih |-> DihExercised(sc, ias, W),
+      desc |-> DescExercised(sc, top, ias, W),
       skew |-> SkewExercised(sc, top, ias, sc.frames[f], W),
       tie |-> HasEdgeTie(sc, top, W),
       dectie |-> \E x \in 1..Len(sc.inter) : /\ sc.inter[x].den # 4 /\ sc.inter[x].kind \in {"nb", "bond"}
